@@ -6,11 +6,13 @@ CONSTANTS
     Variant = "contract"
     MenuName = "c04"
     MaxPrefix = 2
-    PrefixIdx = {1, 2, 3, 4, 5, 6, 7, 8, 9}
+    PrefixIdx = {1, 2, 3, 4, 5, 6, 7, 8, 9, 10}
     MaxSteps = 3
     Durs = {1, 2, 3, 4}
     ParIdx = {1, 2, 3, 4}
     MaxPts = 4
+    EpsPts = TRUE
+    ReadBefore = TRUE
     Lead = 2
 INIT PInit
 NEXT PNext
